@@ -119,7 +119,11 @@ fn op_dispatch(op: &str, a: &[&str]) -> String {
         "const" => parse_res_json(&ast::Constant::parse(&unhex(a[0]), "<v>")),
         "unparse" => crate::engines::c11::unparse_one(&unhex(a[0])),
         "c09" => crate::engines::c09::op(&unhex(a[0]), a.get(1).map(|s| *s == "full").unwrap_or(false)),
-        "c12" => crate::engines::c12::op(&unhex(a[0]), a.get(1).map(|s| *s == "trees").unwrap_or(false)),
+        "c12" => {
+            let has = |w: &str| a.iter().skip(1).any(|s| *s == w);
+            let mode = if has("eval") { rustpython_parser::Mode::Expression } else if has("single") { rustpython_parser::Mode::Interactive } else { rustpython_parser::Mode::Module };
+            crate::engines::c12::op(&unhex(a[0]), has("trees"), mode)
+        }
         "c13" => crate::engines::c13::op(&unhex(a[0])),
         "c03" => crate::engines::c03::op(&unhex(a[0])),
         "c09mode" => {
